@@ -1,9 +1,339 @@
 (* C12 — proofs about the RTSP session model (Model/C12RtspSession.v) *)
 From Coq Require Import ZArith List Bool Lia.
-From V Require Import Bytes StrGo C12RtspSession.
+From V Require Import Bytes StrGo BytesLemmas C12RtspSession.
 Import ListNotations.
 Open Scope Z_scope.
+
+(* the string-level functions play no role in the automaton proofs *)
+Local Opaque canonical_path parse_transport ctl_match.
+
+Ltac break_match :=
+  match goal with
+  | |- context [match ?x with _ => _ end] =>
+      match type of x with
+      | sumbool _ _ => destruct x
+      | _ => destruct x eqn:?
+      end
+  | H : context [match ?x with _ => _ end] |- _ =>
+      match type of x with
+      | sumbool _ _ => destruct x
+      | _ => destruct x eqn:?
+      end
+  end.
+
+Ltac inv_pairs :=
+  repeat match goal with
+  | H : (_, _) = (_, _) |- _ => inversion H; clear H; subst
+  end.
+
+(* open the step function completely *)
+Ltac open_step :=
+  unfold step, step_orig, step_gen, do_play, do_record, live in *.
 
 Lemma options_is_noop : forall fx e s q,
   s_closed s = false -> q_meth q = MOptions -> step_gen fx e s q = (s, [resp 200 q], []).
 Proof. intros fx e s q Hc Hm. unfold step_gen. rewrite Hc, Hm. reflexivity. Qed.
+
+Ltac destruct_hyps :=
+  repeat match goal with
+  | H : _ /\ _ |- _ => destruct H
+  | H : _ \/ _ |- _ => destruct H
+  | H : exists _, _ |- _ => destruct H
+  end.
+
+Ltac break_goal :=
+  match goal with
+  | |- context [match ?x with _ => _ end] => destruct x eqn:?
+  end.
+
+(* goal of the form  step e s q = (s', rs, fs) -> P, session open *)
+Ltac step_crush Hc s q :=
+  open_step; rewrite Hc;
+  destruct (s_status s) eqn:Hst; destruct (q_meth q) eqn:Hm;
+  cbn [legal_go negb];
+  repeat break_goal; intro; inv_pairs.
+
+(* ---------------------------------------------------------------- one response per request *)
+Lemma one_response_per_request : forall e s q s' rs fs,
+  s_closed s = false -> step e s q = (s', rs, fs) ->
+  exists r, rs = [r] /\ rs_cseq r = q_cseq q /\ rs_sess r = true.
+Proof.
+  intros e s q s' rs fs Hc. step_crush Hc s q;
+  eexists; (split; [reflexivity | split; reflexivity]).
+Qed.
+
+(* ---------------------------------------------------------------- the handlers *)
+Definition next_ready (st : status) : status := match st with SInit => SReady | x => x end.
+
+Lemma do_describe_spec : forall e s q s' c,
+  do_describe e s q = (s', c) ->
+  s_status s' = s_status s /\ s_held s' = s_held s /\ s_closed s' = s_closed s /\ s_tr s' = s_tr s /\
+  ((c = 200 /\ s_mode s' = MdPlay) \/
+   (c = 404 /\ s_mode s' = s_mode s /\ s_vctl s' = s_vctl s /\ s_actl s' = s_actl s)).
+Proof.
+  intros e s q s' c. unfold do_describe, upd_ctls, live.
+  repeat break_goal; intro; inv_pairs; cbn; auto 10.
+Qed.
+
+Lemma do_announce_spec : forall e s q s' c,
+  do_announce e s q = (s', c) ->
+  s_status s' = s_status s /\ s_held s' = s_held s /\ s_closed s' = s_closed s /\ s_tr s' = s_tr s /\
+  ((c = 200 /\ s_mode s' = MdRecord) \/
+   (c = 400 /\ s_mode s' = s_mode s /\ s_vctl s' = s_vctl s /\ s_actl s' = s_actl s)).
+Proof.
+  intros e s q s' c. unfold do_announce, upd_ctls.
+  repeat break_goal; intro; inv_pairs; cbn; auto 10.
+Qed.
+
+Lemma do_setup_spec : forall e s q s' c,
+  do_setup e s q = (s', c) ->
+  s_held s' = s_held s /\ s_closed s' = s_closed s /\ s_vctl s' = s_vctl s /\ s_actl s' = s_actl s /\
+  code_class c <> 0 /\
+  ((c = 200 /\ s_status s' = next_ready (s_status s)) \/
+   (is_2xx c = false /\ c <> 455 /\ s_status s' = s_status s)) /\
+  (s_mode s' = s_mode s \/
+   (s_mode s = MdUnknown /\ exists v a, s_vctl s = CtlOk v /\ s_actl s = CtlOk a /\
+                                        ctl_match (q_url q) a || ctl_match (q_url q) v = true)).
+Proof.
+  intros e s q s' c. unfold do_setup, ready_of, live.
+  repeat break_goal; intro; inv_pairs; cbn in *;
+  repeat split; auto; try discriminate;
+  try (left; split; [reflexivity |
+         first [reflexivity | match goal with H : s_status _ = _ |- _ => rewrite H; reflexivity end]]);
+  try (left; reflexivity);
+  try (right; repeat split; solve [reflexivity | discriminate]);
+  try (right; split; [assumption | do 2 eexists; repeat split; eassumption]).
+Qed.
+
+(* ---------------------------------------------------------------- what one step can do *)
+Lemma step_basic : forall e s q s' rs fs,
+  s_closed s = false -> step e s q = (s', rs, fs) ->
+  exists c, rs = [resp c q] /\
+    (* TEARDOWN closes and releases; nothing else closes *)
+    (q_meth q = MTeardown -> c = 200 /\ s' = closed_of s /\ fs = [ERelease (s_held s); EClose]) /\
+    (q_meth q <> MTeardown -> s_closed s' = false) /\
+    (* illegal in the current state: 455 and nothing changes *)
+    (legal (s_status s) (q_meth q) = false -> s' = s /\ c = 455 /\ fs = []) /\
+    (* 455 only for an illegal method, or PLAY/RECORD in ready with the wrong mode/transport *)
+    (c = 455 -> legal (s_status s) (q_meth q) = false \/
+                (s_status s = SReady /\ (q_meth q = MPlay \/ q_meth q = MRecord))) /\
+    (* a refusal changes neither the status nor what is held, and has no effect *)
+    (is_2xx c = false -> s_status s' = s_status s /\ s_held s' = s_held s /\ fs = []) /\
+    (* without a status change nothing is attached, published or released *)
+    (s_status s' = s_status s -> q_meth q <> MTeardown -> s_held s' = s_held s /\ fs = []).
+Proof.
+  intros e s q s' rs fs Hc. step_crush Hc s q; eexists; (split; [reflexivity|]);
+  repeat match goal with
+  | H : do_describe _ _ _ = _ |- _ => apply do_describe_spec in H
+  | H : do_announce _ _ _ = _ |- _ => apply do_announce_spec in H
+  | H : do_setup _ _ _ = _ |- _ => apply do_setup_spec in H
+  end;
+  cbn in *; repeat split; intros; try congruence; try discriminate; auto;
+  try (right; split; [reflexivity | auto]);
+  destruct_hyps; subst; cbn in *; try congruence; try discriminate.
+Qed.
+
+Lemma step_moves : forall e s q s' c fs,
+  s_closed s = false -> step e s q = (s', [resp c q], fs) ->
+  code_class c <> 0 /\
+  (s_mode s' <> s_mode s ->
+     (is_2xx c = true /\ ((q_meth q = MDescribe /\ s_mode s' = MdPlay) \/
+                          (q_meth q = MAnnounce /\ s_mode s' = MdRecord))) \/
+     (q_meth q = MSetup /\ s_mode s = MdUnknown /\
+      exists v a, s_vctl s = CtlOk v /\ s_actl s = CtlOk a /\
+                  ctl_match (q_url q) a || ctl_match (q_url q) v = true)) /\
+  (s_vctl s' <> s_vctl s \/ s_actl s' <> s_actl s ->
+     is_2xx c = true /\ (q_meth q = MDescribe \/ q_meth q = MAnnounce) /\ s_mode s' <> MdUnknown) /\
+  (is_2xx c = true -> q_meth q = MDescribe -> s_mode s' = MdPlay) /\
+  (is_2xx c = true -> q_meth q = MAnnounce -> s_mode s' = MdRecord) /\
+  (is_2xx c = true -> q_meth q = MSetup -> s_status s' = next_ready (s_status s)) /\
+  (q_meth q <> MSetup -> q_meth q <> MTeardown -> q_meth q <> MPlay -> q_meth q <> MRecord ->
+     s_status s' = s_status s) /\
+  (is_2xx c = true -> q_meth q = MPlay ->
+     s_status s' = SPlaying /\
+     (s_status s = SReady -> s_mode s = MdPlay /\ exists p, s_held s' = HCons p /\ fs = [EAttach p])) /\
+  (is_2xx c = true -> q_meth q = MRecord ->
+     s_status s' = SRecording /\
+     (s_status s = SReady -> s_mode s = MdRecord /\ exists p, s_held s' = HPub p /\ fs = [ERegister p])) /\
+  (q_meth q <> MPlay -> q_meth q <> MRecord -> q_meth q <> MTeardown -> s_held s' = s_held s /\ fs = []).
+Proof.
+  intros e s q s' c fs Hc. step_crush Hc s q;
+  repeat match goal with
+  | H : do_describe _ _ _ = _ |- _ => apply do_describe_spec in H
+  | H : do_announce _ _ _ = _ |- _ => apply do_announce_spec in H
+  | H : do_setup _ _ _ = _ |- _ => apply do_setup_spec in H
+  end;
+  destruct_hyps; subst; cbn in *;
+  repeat split; intros; try congruence; try discriminate; auto;
+  destruct_hyps; subst; cbn in *; try congruence; try discriminate;
+  try (left; split; [reflexivity | auto; fail]);
+  try (right; repeat split; auto; do 2 eexists; repeat split; eassumption);
+  try (eexists; split; reflexivity);
+  try (match goal with H : s_status _ = next_ready _ |- _ => rewrite H end;
+       match goal with H : s_status _ = _ |- _ => rewrite H end; reflexivity);
+  try (match goal with H : negb (smode_eqb (s_mode ?s) _) || _ = false |- _ =>
+         apply orb_false_elim in H; destruct H as [H _]; destruct (s_mode s); cbn in H; congruence end).
+Qed.
+
+(* ---------------------------------------------------------------- small facts *)
+Lemma ctl_match_nil : forall u, u <> [] -> ctl_match u [] = false.
+Proof.
+  intros u Hu. Local Transparent ctl_match. unfold ctl_match. Local Opaque ctl_match.
+  destruct u; [congruence | reflexivity].
+Qed.
+
+Lemma req_wf_url : forall q, req_wf q = true -> q_url q <> [].
+Proof. unfold req_wf. intros q H. destruct (q_url q); [discriminate | congruence]. Qed.
+
+Lemma code_class_455 : forall c, code_class c = 455 -> c = 455.
+Proof.
+  intros c. unfold code_class.
+  repeat match goal with |- context [if ?b then _ else _] => destruct b eqn:? end;
+  try discriminate. intros _. lia.
+Qed.
+
+Lemma pair_eqb_refl : forall x, pair_eqb x x = true.
+Proof. intros [a b]. unfold pair_eqb. cbn. rewrite !Z.eqb_refl. reflexivity. Qed.
+Lemma reg_eqb_refl : forall r, reg_eqb r r = true.
+Proof. induction r; cbn; [reflexivity | rewrite pair_eqb_refl, IHr; reflexivity]. Qed.
+
+Lemma reg_has_cons_inv : forall ext h w,
+  reg_has_cons (registry ext h w) = true -> exists p, h = HCons p.
+Proof.
+  intros ext h w. unfold reg_has_cons, registry. rewrite existsb_exists.
+  intros [x [Hin Hx]]. apply in_map_iff in Hin. destruct Hin as [p [Hp _]]. subst x.
+  unfold reg_entry in Hx. cbn in Hx. destruct h; cbn in Hx; try discriminate. eauto.
+Qed.
+Lemma reg_has_own_inv : forall ext h w,
+  reg_has_own (registry ext h w) = true -> exists p, h = HPub p.
+Proof.
+  intros ext h w. unfold reg_has_own, registry. rewrite existsb_exists.
+  intros [x [Hin Hx]]. apply in_map_iff in Hin. destruct Hin as [p [Hp _]]. subst x.
+  unfold reg_entry in Hx. cbn in Hx. destruct h; cbn in Hx; eauto;
+  destruct (bytes_in p ext); discriminate.
+Qed.
+Lemma reg_no_self_none : forall ext w, reg_no_self (registry ext HNone w) = true.
+Proof.
+  intros ext w. unfold reg_no_self, registry. rewrite forallb_forall.
+  intros x Hin. apply in_map_iff in Hin. destruct Hin as [p [Hp _]]. subst x.
+  unfold reg_entry. cbn. destruct (bytes_in p ext); reflexivity.
+Qed.
+
+(* ---------------------------------------------------------------- derived statements *)
+Lemma illegal_is_455_noop : forall e s q,
+  s_closed s = false -> legal (s_status s) (q_meth q) = false ->
+  step e s q = (s, [resp 455 q], []).
+Proof.
+  intros e s q Hc Hl. destruct (step e s q) as [[s' rs] fs] eqn:Hs.
+  destruct (step_basic _ _ _ _ _ _ Hc Hs) as [c [-> [_ [_ [Bill _]]]]].
+  destruct (Bill Hl) as [-> [-> ->]]. reflexivity.
+Qed.
+
+(* effects happen only in the successful PLAY / RECORD transitions and in TEARDOWN *)
+Lemma effects_only_on_success : forall e s q s' rs fs f,
+  s_closed s = false -> step e s q = (s', rs, fs) -> In f fs ->
+  match f with
+  | EAttach p => q_meth q = MPlay /\ rs = [resp 200 q] /\ s_status s = SReady /\
+                 s_status s' = SPlaying /\ s_held s' = HCons p
+  | ERegister p => q_meth q = MRecord /\ rs = [resp 200 q] /\ s_status s = SReady /\
+                   s_status s' = SRecording /\ s_held s' = HPub p
+  | ERelease h => q_meth q = MTeardown /\ h = s_held s
+  | EClose => q_meth q = MTeardown
+  end.
+Proof.
+  intros e s q s' rs fs f Hc Hs Hin.
+  destruct (step_basic _ _ _ _ _ _ Hc Hs) as [c [-> [Btd [Bop [_ [_ [Bref Bsame]]]]]]].
+  destruct (step_moves _ _ _ _ _ _ Hc Hs) as [_ [_ [_ [_ [_ [_ [Gst [Gp [Gr Gheld]]]]]]]]].
+  destruct (q_meth q) eqn:Hm;
+  try (destruct (Gheld ltac:(discriminate) ltac:(discriminate) ltac:(discriminate)) as [_ ->]; destruct Hin).
+  - (* PLAY *)
+    destruct (is_2xx c) eqn:H2; [|destruct (Bref eq_refl) as [_ [_ ->]]; destruct Hin].
+    destruct (Gp eq_refl eq_refl) as [Hst' Hrdy].
+    destruct (status_eqb (s_status s) SReady) eqn:Hr.
+    + assert (Hst : s_status s = SReady) by (destruct (s_status s); try discriminate; reflexivity).
+      destruct (Hrdy Hst) as [_ [p [Hh ->]]]. destruct Hin as [<- | []].
+      assert (c = 200).
+      { unfold step, step_gen, do_play, live in Hs. rewrite Hc, Hm, Hst in Hs. cbn in Hs.
+        repeat break_match; inv_pairs; try discriminate; reflexivity. }
+      subst c. auto.
+    + assert (Hst : s_status s' = s_status s).
+      { unfold step, step_gen, do_play in Hs. rewrite Hc, Hm in Hs.
+        destruct (s_status s) eqn:E; cbn in Hs; try discriminate Hr; inv_pairs; cbn; congruence. }
+      destruct (Bsame Hst ltac:(discriminate)) as [_ ->]. destruct Hin.
+  - (* RECORD *)
+    destruct (is_2xx c) eqn:H2; [|destruct (Bref eq_refl) as [_ [_ ->]]; destruct Hin].
+    destruct (Gr eq_refl eq_refl) as [Hst' Hrdy].
+    destruct (status_eqb (s_status s) SReady) eqn:Hr.
+    + assert (Hst : s_status s = SReady) by (destruct (s_status s); try discriminate; reflexivity).
+      destruct (Hrdy Hst) as [_ [p [Hh ->]]]. destruct Hin as [<- | []].
+      assert (c = 200).
+      { unfold step, step_gen, do_record in Hs. rewrite Hc, Hm, Hst in Hs. cbn in Hs.
+        repeat break_match; inv_pairs; try discriminate; reflexivity. }
+      subst c. auto.
+    + assert (Hst : s_status s' = s_status s).
+      { unfold step, step_gen, do_record in Hs. rewrite Hc, Hm in Hs.
+        destruct (s_status s) eqn:E; cbn in Hs; try discriminate Hr; inv_pairs; cbn; congruence. }
+      destruct (Bsame Hst ltac:(discriminate)) as [_ ->]. destruct Hin.
+  - (* TEARDOWN *)
+    destruct (Btd eq_refl) as [_ [_ ->]]. destruct Hin as [<- | [<- | []]]; auto.
+Qed.
+
+Lemma teardown_releases : forall e s q,
+  s_closed s = false -> q_meth q = MTeardown ->
+  step e s q = (closed_of s, [resp 200 q], [ERelease (s_held s); EClose]).
+Proof. intros e s q Hc Hm. unfold step, step_gen. rewrite Hc, Hm. reflexivity. Qed.
+
+Lemma disconnect_releases : forall s,
+  s_closed s = false -> disconnect s = (closed_of s, [ERelease (s_held s); EClose]).
+Proof. intros s Hc. unfold disconnect. rewrite Hc. reflexivity. Qed.
+
+Lemma closed_holds_nothing : forall s ext w,
+  s_closed (closed_of s) = true /\ s_held (closed_of s) = HNone /\
+  reg_no_self (registry ext (s_held (closed_of s)) w) = true.
+Proof. intros. cbn. repeat split. apply reg_no_self_none. Qed.
+
+(* a closed session answers nothing and does nothing *)
+Lemma closed_is_silent : forall e s q, s_closed s = true -> step e s q = (s, [], []).
+Proof. intros e s q Hc. unfold step, step_gen. rewrite Hc. reflexivity. Qed.
+
+(* after any refusal the session is still open, unchanged in status and holdings,
+   and answers the next request *)
+Lemma usable_after_refusal : forall e s q s' c fs,
+  s_closed s = false -> step e s q = (s', [resp c q], fs) -> is_2xx c = false ->
+  s_closed s' = false /\ s_status s' = s_status s /\ s_held s' = s_held s /\ fs = [] /\
+  forall q2, exists r, snd (fst (step e s' q2)) = [r] /\ rs_cseq r = q_cseq q2 /\ rs_sess r = true.
+Proof.
+  intros e s q s' c fs Hc Hs H2.
+  destruct (step_basic _ _ _ _ _ _ Hc Hs) as [c' [Hrs [Btd [Bop [_ [_ [Bref _]]]]]]].
+  inversion Hrs; subst c'.
+  assert (Hnt : q_meth q <> MTeardown).
+  { intros E. destruct (Btd E) as [-> _]. discriminate. }
+  destruct (Bref H2) as [Hst [Hh Hfs]]. pose proof (Bop Hnt) as Hcl.
+  repeat split; auto.
+  intros q2. destruct (step e s' q2) as [[s2 rs2] fs2] eqn:Hs2.
+  exact (one_response_per_request _ _ _ _ _ _ Hcl Hs2).
+Qed.
+
+(* ---------------------------------------------------------------- the code before the fixes *)
+(* D25: PLAY while playing was left unanswered *)
+Lemma one_response_refuted : exists e s q,
+  s_closed s = false /\ snd (fst (step_orig e s q)) = [].
+Proof.
+  exists {| e_sdp := fun _ => None; e_live := fun _ => None |}.
+  exists (set_status (init_sess false []) SPlaying).
+  exists {| q_meth := MPlay; q_cseq := [49]; q_url := [117]; q_path := [47]; q_transport := [];
+            q_ctype_ok := false; q_sdp := 0 |}.
+  split; reflexivity.
+Qed.
+
+(* D25b: a PLAY refused with 461 switched the session to playing *)
+Lemma refused_play_changed_state_refuted : exists e s q,
+  s_closed s = false /\ s_status s = SReady /\
+  snd (fst (step_orig e s q)) = [resp 461 q] /\ s_status (fst (fst (step_orig e s q))) = SPlaying.
+Proof.
+  exists {| e_sdp := fun _ => None; e_live := fun _ => Some (1, false) |}.
+  exists (set_tr (set_mode (set_status (init_sess false []) SReady) MdPlay) {| t_mode := MdPlay; t_type := TMcast |}).
+  exists {| q_meth := MPlay; q_cseq := [49]; q_url := [117]; q_path := [47]; q_transport := [];
+            q_ctype_ok := false; q_sdp := 0 |}.
+  repeat split; reflexivity.
+Qed.
